@@ -524,3 +524,18 @@ package meta
 //@ func syncContainerCounters$1
 //@   property C02
 //@   ensures [payload_counted_only_for_objects_without_a_mark] deref(usersPayloadCounter) != old(deref(usersPayloadCounter)) ==> recountFoundNoMark()
+
+// ---- C09 (metadata rebuilt from the blobs): every blob that decodes joins the batch that is
+// written to the metabase - none is left out at a batch boundary (a tombstone left out of the
+// rebuilt metadata makes its target readable again).
+//@ callrule c09_resync_flushes_a_batch_that_holds_the_object in (*resyncHandler).handle
+//@   property C09
+//@   callee (*metabase.resyncHandler).flush
+//@   requires [object_joined_the_batch_before_the_flush] len(rh.batch) > 0 && rh.batch[len(rh.batch) - 1] == obj
+//@ callrule c09_resync_collaborators in (*resyncHandler).handle
+//@   property C09
+//@   callee (*object.Object).*, (object.Object).*, (id.Address).*, (*id.Address).*, strings.EqualFold, fmt.Errorf, (*zap.Logger).*, zap.String, dynamic:*
+//@   pureeffect
+//@ func (*resyncHandler).handle
+//@   property C09
+//@   ensures [object_joins_the_batch] err == nil && !resultOf(err, "dynamic:*") && !resultOf(err, "(*metabase.resyncHandler).flush") ==> len(rh.batch) == old(len(rh.batch)) + 1 && rh.batch[len(rh.batch) - 1] == obj
